@@ -61,8 +61,12 @@ def run_one(m, tier, props_override=None):
         env["VERIF_OUT"] = os.path.join(d, "out")
         env["VERIF_SCRATCH"] = os.path.join(d, "scratch")
         t0 = time.time()
-        r = subprocess.run([os.path.join(VERIF, "check"), prop, "--tier", tier], env=env,
-                           stdout=subprocess.PIPE, stderr=subprocess.STDOUT, text=True)
+        try:
+            r = subprocess.run([os.path.join(VERIF, "check"), prop, "--tier", tier], env=env,
+                               stdout=subprocess.PIPE, stderr=subprocess.STDOUT, text=True, timeout=1800)
+        except subprocess.TimeoutExpired as te:
+            class R: pass
+            r = R(); r.returncode = 2; r.stdout = "MACHINERY: check did not finish within 1800 s\n" + (te.stdout or "")[-300:] if isinstance(te.stdout, str) else "MACHINERY: check did not finish within 1800 s\n"
         lines = [l for l in r.stdout.splitlines() if l.startswith(("VIOLATION", "KNOWN-FINDING", "MACHINERY", "  key="))]
         results[prop] = {"exit": r.returncode, "lines": lines[:6], "wall": round(time.time() - t0, 1),
                          "tail": r.stdout[-400:] if r.returncode == 2 else ""}
